@@ -982,6 +982,20 @@ pub fn run_stateless(cfg: &TransportCfg, sc: &mut Sc) {
             } else if use_n == u64::MAX && o.err() != Some("State(Exhausted)") {
                 sc.viol("C09", format!("{}: stateless read under 2^64-1 gave {o:?}", cfg.name));
             }
+            // tampered copies, with exact, in-between and generous payload buffers (C04, C19)
+            if !m.is_empty() {
+                let mut bad = m.clone();
+                let i = r.below(bad.len());
+                bad[i] ^= 1 << r.below(8);
+                let cap = p.len() + [0usize, 7, 16, 40][r.below(4)];
+                let o = sc.ex.st_read(rd2, wn, &bad, cap);
+                sc.check_panic(&o, "st_read tampered");
+                if o.is_ok() {
+                    sc.viol("C04", format!("{}: tampered stateless message accepted", cfg.name));
+                } else if p.len() >= 16 && sc.ex.last_buf.windows(p.len()).any(|w| w == p.as_slice()) {
+                    sc.viol("C19", format!("{}: rejected stateless message left its plaintext in the {cap}-byte buffer", cfg.name));
+                }
+            }
             // reflection
             let o = sc.ex.st_read(if wd == 0 { 1 } else { 2 }, wn, &m, p.len());
             if o.is_ok() && !(oneway) {
